@@ -269,7 +269,10 @@ def gen_field_value(rng, desc, f, depth, poly, full=False):
     return gen_value(rng, desc, f['ty'], depth, poly, full)
 
 
-def to_native(desc, classes, v):
+def to_native(desc, classes, v, share=None):
+    """neutral value -> Spyne natives.  share: None -> every object value becomes its own instance (a tree);
+    a dict -> equal object values become ONE instance (a DAG: the same instance wherever the value recurs,
+    across calls with the same dict too); share['hits'] counts the reuses"""
     k = v[0]
     if k == 'none':
         return None
@@ -278,12 +281,42 @@ def to_native(desc, classes, v):
     if k in ('int', 'text', 'bool', 'double', 'decimal', 'raw'):
         return v[1]
     if k == 'list':
-        return [to_native(desc, classes, x) for x in v[1]]
+        return [to_native(desc, classes, x, share) for x in v[1]]
     cid = v[1]
+    key = None
+    if share is not None:
+        key = repr(jsonable(v))
+        if key in share:
+            share['hits'] = share.get('hits', 0) + 1
+            return share[key]
     kw = {}
     for f, x in zip(flat_fields(desc, cid), v[2]):
-        kw[f['name']] = to_native(desc, classes, x)
-    return classes[cid](**kw)
+        kw[f['name']] = to_native(desc, classes, x, share)
+    inst = classes[cid](**kw)
+    if share is not None:
+        share[key] = inst
+    return inst
+
+
+def share_values(rng, vals, p=0.6):
+    """rewrites values so that object values recur: with probability p an object is replaced by an earlier,
+    finished object value of the same class (a sibling member, an earlier array item, something inside a
+    sibling's subtree, something in an earlier value of the list; never an ancestor, so no cycle).  Replacing
+    an object by one of its own class keeps the value conformant."""
+    pool = {}
+
+    def go(v):
+        if v[0] == 'list':
+            return ('list', [go(x) for x in v[1]])
+        if v[0] != 'obj':
+            return v
+        cands = pool.get(v[1])
+        if cands and rng.random() < p:
+            return rng.choice(cands)
+        nv = ('obj', v[1], [go(x) for x in v[2]])
+        pool.setdefault(v[1], []).append(nv)
+        return nv
+    return [go(v) for v in vals]
 
 
 def class_id(classes, cls):
